@@ -111,7 +111,10 @@ CLAIMED = {
    text="Theorems (Props/C10.v): the min-clock invariant of the limited fetch holds in every reachable state of every schedule; top-n of "
         "the log is contained in the results which are contained in the log; the (repaired) loaders return exactly the supplied entries plus "
         "the most recent others, min(max(n,k),size) entries, independent of the schedule, on tie-free logs. On logs with (id,time) "
-        "ties the outcome depends on arrival order (known finding K4). Tied by trace validation and exact result comparison.",
+        "ties the outcome depends on arrival order (known finding K4). The log a limited load returns is, for all four loaders, "
+        "the replica the model's re-opening step makes from the loaded entries (and, for the manifest loader, the heads among them, "
+        "which are exactly the unreferenced entries of the loaded part), an admissible step of the histories with re-opened logs. "
+        "Tied by trace validation and exact result comparison.",
    technique="Coq proof (invariant over a non-deterministic transition system) + trace validation vs Go", design="6/C10"),
  "C11": dict(
    text="Theorems (Props/C11.v) over ALL executions of the fetcher transition system (any store, fault set, exclusion predicate, "
